@@ -48,7 +48,13 @@ class TWorker(env.BaseWorker):
                 raise Abort()
             self.pending = None
             for op in self.program:
-                out = O.run(self.s.store_for(self), op, self.s.ctx)
+                if callable(op):
+                    try:
+                        out = ("ok", op(self.s.store_for(self)))
+                    except Exception as e:  # noqa: BLE001
+                        out = (type(e).__name__, str(e)[:100])
+                else:
+                    out = O.run(self.s.store_for(self), op, self.s.ctx)
                 self.results.append(out)
                 self.hist.update(repr(("ret", out[0], _valkey(out[1]) if out[0] == "ok" else None)).encode())
         except Abort:
@@ -300,8 +306,9 @@ def run_execution(sc, root, prefix, visited, explore=True, bound=None, observer=
                     setattr(c, k, copy.deepcopy(v))
             per[name] = c
     s = Sched(store, sc.ctx, per)
-    for name in sorted(sc.threads):
-        s.workers.append(TWorker(s, name, sc.threads[name]))
+    threads = sc.make_threads() if hasattr(sc, "make_threads") else sc.threads
+    for name in sorted(threads):
+        s.workers.append(TWorker(s, name, threads[name]))
     for w in s.workers:
         w.th.start()
     ex = Execution()
